@@ -290,6 +290,21 @@ def rule_r5(ctx: Context, R: Reporter):
         R.check("C09.r5", "no random variate is cached in storage that outlives a seeding call", why is None, fi, s.call,
                 msg=f"{fi.short}: the result of `{unparse(s.call)[:50]}` is kept in {why}: the buffer survives np.random.seed(), so a run seeded afterwards starts with variates of "
                     f"the previous stream -- equal seeds no longer give equal runs in one process", key=f"draw-cached:{fi.short}:{norm_text(s.call)[:40]}")
+    # a memoised function (functools.lru_cache / cache) must not draw, directly or through what it calls: a cache hit
+    # returns the stored result and skips the draws, so the position of the stream after the call depends on what
+    # earlier runs in the same process left in the cache
+    drawing = {s.func.qualname for s in ctx.rng.draws()}
+    n_memo = 0
+    for fi in ctx.prog.functions.values():
+        if not any(dotted(d.func if isinstance(d, ast.Call) else d).split(".")[-1] in ("lru_cache", "cache") for d in fi.node.decorator_list):
+            continue
+        n_memo += 1
+        reach = [g for g in ctx.cg.reachable([fi]) if g.qualname in drawing]
+        R.check("C09.r5", "a memoised function does not consume the random stream", not reach, fi, fi.node,
+                msg=f"{fi.short} is memoised for the life of the process but draws from the global stream (through {reach[0].short if reach else ''}): a cache hit skips those draws, so a "
+                    f"second seeded run in the same process consumes fewer random numbers and every later draw differs -- equal seeds no longer give equal runs",
+                key=f"draw-cached:memoised:{fi.short}")
+    R.analysed["C09.r5:memoised functions inspected"] = n_memo
     R.floor("C09.r5", "draw sites inspected for process-lifetime caching", n, 8)
 
 
@@ -395,7 +410,7 @@ def run(ctx: Context, R: Reporter):
 
 
 def variants():
-    from ..variants import Variant, alpha_rename, chain, delete_stmt, insert_after, insert_before, replace_expr, replace_stmt
+    from ..variants import Variant, alpha_rename, chain, delete_stmt, insert_after, insert_before, insert_before_function, replace_expr, replace_stmt
 
     core = "tempest/core.py"
     cl = "tempest/cluster.py"
@@ -411,6 +426,10 @@ def variants():
         Variant("r3-stdlib-random", "bad", insert_before("tempest/steps/mutate.py", "Mutator.run", "beta = self.state.get_current('beta')", "import random\njitter = random.random()"), ["C09.r3"]),
         Variant("r3-time-seed", "bad", insert_before(core, "SamplerCore._initialize_fresh", "self.state.set_current('iter', 0)", "import time\nnp.random.seed(int(time.time()))"), ["C09.r3", "C09.r2", "ANALYSIS-ERROR"]),
         Variant("r2-stream-rewind", "bad", chain(insert_before(core, "SamplerCore.run_sampling", "self.n_total = int(n_total)", "_stream = np.random.get_state()"), insert_after(core, "SamplerCore.run_sampling", "self.pbar.close()", "np.random.set_state(_stream)")), ["C09.r2"], quick=True),
+        Variant("r5-memoised-function-draws", "bad", chain(insert_before_function("tempest/tools.py", "systematic_resample", "from functools import lru_cache\n\n\n@lru_cache(maxsize=8)\ndef _offset(size):\n    return np.random.random() / size\n"),
+                                                             replace_expr("tempest/tools.py", "systematic_resample", "(np.random.random() + np.arange(size)) / size", "_offset(size) + np.arange(size) / size")), ["C09.r5"], quick=True),
+        Variant("r5-benign-memoised-pure-function", "benign", chain(insert_before_function("tempest/tools.py", "systematic_resample", "from functools import lru_cache\n\n\n@lru_cache(maxsize=8)\ndef _teeth(size):\n    return tuple(k / size for k in range(size))\n"),
+                                                                   insert_after("tempest/tools.py", "systematic_resample", "positions = (np.random.random() + np.arange(size)) / size", "teeth = _teeth(size)"))),
         Variant("r5-global-buffer", "bad", replace_stmt("tempest/steps/mutate.py", "Mutator.run", "u = np.random.rand(self.n_particles, self.n_dim)", "global _U\n_U = np.random.rand(self.n_particles, self.n_dim)\nu = _U"), ["C09.r5"], quick=True),
         Variant("r6-seed-folded", "bad", insert_before("tempest/config.py", "SamplerConfig.__post_init__", "self.validate()", "if self.random_state is not None:\n    object.__setattr__(self, 'random_state', int(self.random_state) % 2147483647)"), ["C09.r6"], quick=True),
         Variant("r6-benign-int-conversion", "benign", insert_before("tempest/config.py", "SamplerConfig.__post_init__", "self.validate()", "if self.random_state is not None:\n    object.__setattr__(self, 'random_state', int(self.random_state))")),
